@@ -116,9 +116,15 @@ def gen_case(rng, name, with_unknown):
     known = y[y >= 0]
     size = int(rng.integers(2, 4))
     cap = int(sum(c // size for c in np.bincount(known)))
-    n = int(rng.integers(max(1, cap // 2), cap + 1))
+    # well-formed for RCA: enough chunked points for an invertible within-chunk covariance
+    need = int(np.ceil((d + 2) / (size - 1)))
+    if cap < need:
+      size = 2
+      cap = int(sum(c // size for c in np.bincount(known)))
+      need = d + 2
+    n = int(rng.integers(min(need, cap), cap + 1))
     hyper.update(n_chunks=n, chunk_size=size)
-    if rng.random() < 0.5:
+    if rng.random() < 0.5 and n * (size - 1) >= d + 2:
       hyper['n_components'] = int(rng.integers(1, d + 1))
     ev['n'], ev['size'] = n, size
   else:
